@@ -1,4 +1,5 @@
 """C17 — entry points for untrusted data never panic / abort / hang: site inventory with guards, recursion inventory, loop exits, statics."""
+import re
 from .. import dex as D, world as W, mir as M
 from . import util as U, panic_common as PC
 
@@ -26,6 +27,60 @@ RECURSION_OK = {   # anchor function -> (module every member of its component mu
     "ruma_common::canonical_json::value::<impl core::convert::From<ruma_common::canonical_json::value::CanonicalJsonValue> for serde_json::value::Value>::from":
         ("ruma_common::canonical_json", "nesting depth of a CanonicalJsonValue, itself produced by the conversion above"),
 }
+
+
+ACCESSOR = re.compile(r"(SeqAccess|MapAccess)(<'de>)?::(next_element|next_element_seed|next_key|next_key_seed|next_value|next_value_seed|next_entry|next_entry_seed)$")
+
+
+def stream_errors(ctx, w, rule):
+    """A streaming serde accessor that returned an error makes no promise about its position: asking it again may return the same error
+    forever (serde_json's SeqAccess at end of input, or after a malformed separator, does not consume anything). A visitor loop must leave
+    on the first error."""
+    ctx.rule(rule, "hand-written and ruma-derive-generated serde visitors: on every path, once SeqAccess::next_element* / MapAccess::next_* has returned "
+                   "Err the accessor is not asked again (a loop that `continue`s on an element error does not terminate on truncated input)")
+    n = 0
+    for fn in w.all_fns():
+        if "body" not in fn:
+            continue
+        mac = fn.get("mac") or []
+        if any(m.endswith("Deserialize") for m in mac):
+            continue                      # serde's own derive output: every accessor result is propagated with `?`
+        if not any(ACCESSOR.search(M.callee_name(c)) for body in M.all_bodies(fn) for _, c in M.calls(body)):
+            continue
+        n += 1
+        key = f"{rule}:{PC.key_path(fn['path'])}"
+        dex = D.Dex(w.lookup, adt_discr=w.adt_discr, unroll=1, effects=lambda nm: ACCESSOR.search(nm) is not None, max_paths=200000)
+        try:
+            paths = dex.paths(fn, [D.sym(f"a{i}") for i in range(fn["body"]["argc"])])
+        except D.Unrecognised as e:
+            ctx.unrecognised(rule, key, w.where(fn), str(e))
+            continue
+        bad = None
+        for p in paths:
+            n_acc = len(p.effects)
+            for a, t in p.conds:
+                sa = D.show_atom(a)
+                if not (t and sa.endswith(" is Err")):
+                    continue
+                # the Err must be the accessor's own result (directly, or seen through Result::transpose), not that of something computed from an item
+                m = re.fullmatch(r"(?:Result::transpose\()?(?:SeqAccess|MapAccess)::(next_\w+)\(([^()]*)\)(#(\d+))?\)?(?:\.Some\.0)? is Err", sa)
+                if not m:
+                    continue
+                k = int(m.group(4)) if m.group(4) else 1
+                # position of the k-th call of that accessor method on that receiver among the path's accessor calls
+                same = [i for i, e in enumerate(p.effects) if e[0].rsplit("::", 1)[-1] == m.group(1) and D.show(e[1][0]) == m.group(2)]
+                if len(same) < k:
+                    continue
+                later = [e for e in p.effects[same[k - 1] + 1:] if D.show(e[1][0]) == m.group(2)]
+                if later:
+                    bad = (sa, later[0][0].rsplit("::", 1)[-1])
+                    break
+            if bad:
+                break
+        ctx.check(bad is None, rule, key, w.where(fn),
+                  bad_msg=f"after `{bad[0][:110] if bad else ''}` the visitor calls {bad[1] if bad else ''} on the same accessor again: on input that ends inside the "
+                          f"sequence (or has a malformed separator) the accessor returns the same error without consuming anything, so the loop never ends")
+    ctx.floor(f"visitors examined ({rule})", n, 20)
 
 
 def run(ctx):
@@ -125,6 +180,8 @@ def run(ctx):
                     ctx.violation("C17.loops", f"C17.loops:{fn['path']}", w.where(fn), "loop without exit edge")
     ctx.ok("C17.loops", "C17.loops:scan", "", f"{nloops} loops scanned")
     ctx.floor("loops scanned", nloops, 300)
+
+    stream_errors(ctx, w, "C17.stream-errors")
 
     ctx.rule("C17.statics", "no `static mut` and no static with interior mutability other than tracing call-site registrations: a rejected input leaves no state behind")
     n = 0
